@@ -281,6 +281,31 @@ def evaluate(case, workdir):
                        ('cum_returns', list(ts['cum_returns']), im['cum'])):
         if len(a) != len(b) or not all(feq(x, y, 0.0) for x, y in zip(a, b)):
             bad('C17.tearsheet_vs_json', {'statistic': name, 'tearsheet': [float(x) for x in a], 'json': b})
+    # a frame that already went through the tearsheet is sliced / extended and goes through it again: the result
+    # must be that of the derived curve, computed afresh
+    if len(vals) >= 3:
+        try:
+            from qstrader.statistics.tearsheet import TearsheetStatistics
+            with warnings.catch_warnings():
+                warnings.simplefilter('ignore')
+                tsobj = TearsheetStatistics(strategy_equity=None, periods=PERIODS)
+                used = pd.DataFrame({'Equity': [float(v) for v in vals]}, index=list(dates))
+                tsobj.get_results(used)
+                derived = used.iloc[1:]
+                r_derived = tsobj.get_results(derived)
+                fresh = pd.DataFrame({'Equity': [float(v) for v in vals[1:]]}, index=list(dates[1:]))
+                r_fresh = TearsheetStatistics(strategy_equity=None, periods=PERIODS).get_results(fresh)
+            for key in ('sharpe', 'max_drawdown', 'max_drawdown_duration'):
+                if not (feq(r_derived[key], r_fresh[key], 0.0) or r_derived[key] == r_fresh[key]):
+                    bad('C17.tearsheet_on_derived_frame', {'statistic': key, 'derived_frame': float(r_derived[key]),
+                                                           'fresh_frame': float(r_fresh[key])})
+            for key in ('returns', 'cum_returns', 'drawdowns'):
+                a, b = list(r_derived[key]), list(r_fresh[key])
+                if len(a) != len(b) or not all(feq(x, y, 0.0) for x, y in zip(a, b)):
+                    bad('C17.tearsheet_on_derived_frame', {'statistic': key, 'derived_frame': [float(x) for x in a],
+                                                           'fresh_frame': [float(x) for x in b]})
+        except Exception as e:  # noqa
+            bad('C17.unexpected_error', {'error': repr(e), 'on': 'derived frame'})
     # the written file reloads to the same statistics
     if norm_json(im['stats']) != norm_json(im['reloaded']):
         bad('C17.json_file_roundtrip', {'keys': sorted(im['stats'].get('strategy', {}).keys())[:5]})
